@@ -48,8 +48,8 @@ CLAIMS = {
              "memory, dynamic_obstacles (well-formed: requested shape, unbroken wall boundary, agent inside on a free cell that is "
              "not exit/obstacle/telepod, empty-handed; inventories as advertised; ValueError and only ValueError for parameters "
              "that cannot be honoured), with the design.py drawing helpers verified against cell-exact contracts (loop "
-             "invariants). rooms is proved for the fixed layouts (1,1), (2,2), (1,3), memory_rooms for (1,1) with 1 beacon / 2 exits and (2,2) "
-             "with 2 beacons / 3 exits, each with symbolic shape, symbolic colour set and every outcome (numpy.linspace "
+             "invariants). rooms is proved for the fixed layouts (1,1), (2,2), (1,3), (2,1), (3,2), (1,4), (3,3), memory_rooms for (1,1) with 1 beacon / 2 exits, (2,2) "
+             "with 2 beacons / 3 exits and the shipped parameter sets (2,2) / (3,3) with 4 colours, 1 beacon, 2 exits, each with symbolic shape, symbolic colour set and every outcome (numpy.linspace "
              "modelled exactly for at most 6 samples and compared with numpy by the setup command). Obstacle counts are evaluated "
              "natively only. rooms with other layouts, memory_rooms and crossing are evaluated natively only on random parameters: "
              "bounded stand-ins, not proof.",
